@@ -604,7 +604,16 @@ func (g *GateResult) atomOf(cond ssa.Value) (*atom, bool) {
 		}
 		if call != nil && g.InModule != nil {
 			if f := call.Call.StaticCallee(); f != nil && g.InModule(f) && len(call.Call.Args) == 1 && len(f.Params) == 1 && len(f.Blocks) > 0 {
-				if e := g.derive(call.Call.Args[0], 0); e != nil && len(e.ops) == 0 {
+				e := g.derive(call.Call.Args[0], 0)
+				if e == nil {
+					// the slice whose length is the subject, handed to a constructor that checks it
+					for sv := range g.Subjects {
+						if lenOperand(sv) == call.Call.Args[0] {
+							e = &gexpr{}
+						}
+					}
+				}
+				if e != nil && len(e.ops) == 0 {
 					if ps := g.predicate(f); ps != nil {
 						a := &atom{e: e, op: token.EQL, pred: ps} // "the predicate holds" = a non-nil error
 						if (b.Op == token.EQL) != neg {
@@ -1262,7 +1271,14 @@ func (g *GateResult) predicate(f *ssa.Function) *predSets {
 func (g *GateResult) predicateStruct(f *ssa.Function) *predSets {
 	g.preds[f] = nil // recursion guard
 	p := f.Params[0]
-	if !isIntType(p.Type()) {
+	// `NewEntropy(b []byte) (Entropy, error)`: a predicate of len(b)
+	bytesParam := false
+	if sl, ok := p.Type().Underlying().(*types.Slice); ok {
+		if bt, ok := sl.Elem().Underlying().(*types.Basic); ok && bt.Kind() == types.Uint8 {
+			bytesParam = true
+		}
+	}
+	if !isIntType(p.Type()) && !bytesParam {
 		return nil
 	}
 	// the result is a bool, or an error (then "true" stands for "returns a non-nil error")
@@ -1311,7 +1327,7 @@ func (g *GateResult) predicateStruct(f *ssa.Function) *predSets {
 					continue
 				}
 				if c, ok := in.(*ssa.Call); ok {
-					if n := calleeName(c); n != "fmt.Errorf" && n != "errors.New" {
+					if n := calleeName(c); n != "fmt.Errorf" && n != "errors.New" && !(bytesParam && (n == "len" || n == "append")) {
 						return nil
 					}
 				}
@@ -1331,7 +1347,26 @@ func (g *GateResult) predicateStruct(f *ssa.Function) *predSets {
 			}
 		}
 	}
-	inner := AnalyseGate(f, map[ssa.Value]bool{p: true}, f.Blocks[0], ZRange(lo, hi), g.Bits, g.Tables, nil)
+	innerSubj := map[ssa.Value]bool{p: true}
+	if bytesParam {
+		if !isErr {
+			return nil
+		}
+		innerSubj = map[ssa.Value]bool{}
+		for _, c := range callsIn(f) {
+			if calleeName(c) == "len" && c.Common().Args[0] == ssa.Value(p) {
+				innerSubj[c.Value()] = true
+			}
+		}
+		if len(innerSubj) == 0 {
+			return nil
+		}
+		lo, hi = 0, int64(1)<<48
+		if g.Bits == 32 {
+			hi = math.MaxInt32
+		}
+	}
+	inner := AnalyseGate(f, innerSubj, f.Blocks[0], ZRange(lo, hi), g.Bits, g.Tables, nil)
 	for tg := range inner.Relied {
 		g.Relied[tg] = true
 	}
